@@ -217,9 +217,9 @@ func cmdCheck(args []string) int {
 	} else {
 		fmt.Println("SMT files in", dir)
 	}
-	timeout := 10
+	timeout := envInt("VC_TIMEOUT", 30)
 	if *tier == "thorough" {
-		timeout = 60
+		timeout = envInt("VC_TIMEOUT", 120)
 	}
 	d := NewDischarger(dir, timeout, seed, 16, *tier == "thorough")
 	var all []*Obligation
